@@ -30,7 +30,10 @@ func VxH14a() {
 	differ := vxOr(p1 != p2, v1 != v2)
 	d1, d2 := t1.TempDir(), t2.TempDir()
 	vxReach("both-built")
-	vxAssert(vxImplies(differ, vxOr(vxRefPre14(p1, v1) == vxRefPre14(p2, v2), d1 != d2)), "C14.injective")
+	sameRef := vxRefPre14(p1, v1) == vxRefPre14(p2, v2)
+	// KF-C14-1: components that concatenate to the same bytes collide (listed known finding)
+	vxKnown(vxImplies(vxAnd(differ, sameRef), d1 != d2), "KF-C14-1")
+	vxAssert(vxImplies(differ, vxOr(sameRef, d1 != d2)), "C14.injective")
 	vxAssert(vxImplies(vxNot(differ), d1 == d2), "C14.stable")
 }
 
@@ -42,7 +45,7 @@ func vxRefPre14(p, v string) string {
 }
 
 func VxH14len() {
-	n := vxInt("n", 0, 300)
+	n := vxInt("n", vxGet("lo"), vxGet("hi"))
 	nn := vxConcrete(n)
 	name := ""
 	for i := 0; i < nn; i++ {
